@@ -685,6 +685,9 @@ pub struct Intent {
   pub must_drop: BTreeMap<String, Vec<String>>,
   /// per module path: top-level names that are part of the public API (exported or referenced)
   pub public: BTreeMap<String, Vec<String>>,
+  /// per module path: nested declarations (namespace path ending in the declared name) that must
+  /// NOT appear in the output
+  pub must_drop_paths: BTreeMap<String, Vec<Vec<String>>>,
   /// the generator knows of a construct fast check must reject
   pub expect_diagnostic: bool,
   /// constructs whose treatment the intent oracle does not predict (no must_drop claims are made)
@@ -1862,6 +1865,81 @@ pub fn gen_package(rng: &mut Rng, adversarial: bool) -> Package {
     entry_modules.push(t);
     g.feat("second-entrypoint");
   }
+  // 6b. a private nested namespace reached from the public API only through a qualified path of two to
+  //     four segments: the declaration at the end of the path (and the namespaces on the way) stay,
+  //     every sibling on the way - exported inside its namespace or not - is outside the public API
+  let mut nested_drop: Vec<Vec<String>> = vec![];
+  if g.rng.chance(18) {
+    let root = format!("Nns{}", g.nodes.len());
+    let depth = g.rng.range(1, 3); // namespaces below the root on the way to the target
+    fn leaf(g: &mut Gen, name: &str) -> Decl {
+      if g.rng.chance(50) {
+        Decl::Interface { name: name.to_string(), tparams: vec![], extends: vec![], members: vec![("a".into(), false, Ty::Kw("number"))] }
+      } else {
+        Decl::Alias { name: name.to_string(), tparams: vec![], ty: Ty::Kw("string") }
+      }
+    }
+    // build from the innermost level outwards
+    let mut path: Vec<String> = vec![root.clone()];
+    for d in 0..depth {
+      path.push(format!("Lv{}", d));
+    }
+    let target = "Target".to_string();
+    let mut inner_items: Vec<(bool, Decl)> = vec![];
+    let mut level_path = path.clone();
+    // innermost namespace: the target and its siblings
+    inner_items.push((true, leaf(&mut g, &target)));
+    for k in 0..g.rng.range(1, 2) {
+      let ex = g.rng.chance(70);
+      let name = format!("Sib{}", k);
+      inner_items.push((ex, leaf(&mut g, &name)));
+      let mut pth = level_path.clone();
+      pth.push(name);
+      nested_drop.push(pth);
+    }
+    if g.rng.chance(50) {
+      inner_items.rotate_left(1);
+    }
+    let mut cur = Decl::Namespace { name: level_path.last().unwrap().clone(), items: inner_items, declare: false };
+    while level_path.len() > 1 {
+      level_path.pop();
+      let mut items: Vec<(bool, Decl)> = vec![(true, cur)];
+      if g.rng.chance(70) {
+        let ex = g.rng.chance(70);
+        let name = format!("Side{}", level_path.len());
+        items.push((ex, leaf(&mut g, &name)));
+        let mut pth = level_path.clone();
+        pth.push(name);
+        nested_drop.push(pth);
+      }
+      if g.rng.chance(30) {
+        // a sibling namespace nobody mentions
+        let name = format!("Dead{}", level_path.len());
+        let d = leaf(&mut g, "X");
+        items.push((true, Decl::Namespace { name: name.clone(), items: vec![(true, d)], declare: false }));
+        let mut pth = level_path.clone();
+        pth.push(name);
+        nested_drop.push(pth);
+      }
+      if g.rng.chance(50) {
+        items.rotate_left(1);
+      }
+      cur = Decl::Namespace { name: level_path.last().unwrap().clone(), items, declare: false };
+    }
+    let mut qualified = path.clone();
+    qualified.push(target);
+    let ty = Ty::Ref(qualified.join("."), vec![]);
+    let user = match g.rng.below(3) {
+      0 => Decl::Alias { name: format!("{}Use", root), tparams: vec![], ty },
+      1 => Decl::Interface { name: format!("{}Use", root), tparams: vec![], extends: vec![], members: vec![("m".into(), g.rng.chance(30), Ty::Arr(Box::new(ty)))] },
+      _ => Decl::Alias { name: format!("{}Use", root), tparams: vec![], ty: Ty::Union(vec![ty, Ty::Kw("undefined")]) },
+    };
+    let at = g.rng.below(modules[0].items.len() + 1);
+    let at = at.max(modules[0].items.iter().take_while(|i| matches!(i, Item::Import { .. })).count());
+    modules[0].items.insert(at, Item::Decl(0, cur));
+    modules[0].items.push(Item::Decl(1, user));
+    g.feats.insert(format!("nested-namespace-path-{}", depth + 2), 1);
+  }
   // 7. intent: roots = everything an entrypoint exports; closure over api_refs
   let mut public: BTreeSet<usize> = BTreeSet::new();
   let mut work: Vec<usize> = vec![];
@@ -1925,6 +2003,9 @@ pub fn gen_package(rng: &mut Rng, adversarial: bool) -> Package {
     let path = MOD_PATHS[m].to_string();
     intent.must_drop.insert(path.clone(), per_module[m].iter().filter(|i| !justified.contains(i)).map(|i| g.nodes[*i].name.clone()).collect());
     intent.public.insert(path, per_module[m].iter().filter(|i| public.contains(i)).map(|i| g.nodes[*i].name.clone()).collect());
+  }
+  if !nested_drop.is_empty() {
+    intent.must_drop_paths.insert(MOD_PATHS[0].to_string(), nested_drop);
   }
   let dropped: usize = intent.must_drop.values().map(|v| v.len()).sum();
   let pulled = public.iter().filter(|i| !g.nodes[**i].export_kw && g.nodes[**i].list_exports.is_empty()).count();
